@@ -5,6 +5,7 @@ package main
 import (
 	"fmt"
 	"os"
+	"sync"
 	"go/types"
 	"sort"
 	"strings"
@@ -531,12 +532,51 @@ func (e *Engine) verifyFunction(ct *Contract, prop string, tier string) *fnResul
 	// discharge: one session per path on z3-new, fall back to the other solvers per goal
 	type job struct{ v vc }
 	results := make([][]SolverResult, len(vcs))
+	var mfMu sync.Mutex
+	mfRefuted := map[string]bool{}
 	parallel(len(vcs), e.workers, func(i int) {
 		v := vcs[i]
 		gs := make([]Term, len(v.goals))
 		for j, g := range v.goals {
 			gs[j] = g.goal
 		}
+		// vacuity guards need one witness only: skip sessions whose must-fail goals are all refuted already
+		allMF := true
+		for _, g := range v.goals {
+			if g.obl.Kind != "mustfail" {
+				allMF = false
+			}
+		}
+		if allMF {
+			mfMu.Lock()
+			done := true
+			for _, g := range v.goals {
+				if !mfRefuted[g.obl.ID] {
+					done = false
+				}
+			}
+			mfMu.Unlock()
+			if done {
+				rs := make([]SolverResult, len(gs))
+				for j := range rs {
+					rs[j] = SolverResult{Status: "skipped"}
+				}
+				results[i] = rs
+				return
+			}
+		}
+		defer func() {
+			if results[i] == nil {
+				return
+			}
+			mfMu.Lock()
+			for j, g := range v.goals {
+				if g.obl.Kind == "mustfail" && results[i][j].Status == "sat" {
+					mfRefuted[g.obl.ID] = true
+				}
+			}
+			mfMu.Unlock()
+		}()
 		rs, _ := e.solver.checkAll("z3-new", v.header, gs, nil, e.sessionTimeout)
 		for j := range rs {
 			mustfail := v.goals[j].obl.Kind == "mustfail"
